@@ -4,6 +4,9 @@ import (
 	"bytes"
 	"crypto/sha256"
 	"fmt"
+	"github.com/ldclabs/cose/key/aesmac"
+	"github.com/ldclabs/cose/key/hmac"
+	"strings"
 
 	"github.com/fxamacker/cbor/v2"
 	"github.com/ldclabs/cose/cose"
@@ -60,9 +63,43 @@ func realRelatedKeys(c *ctx) {
 			sum := sha256.Sum256(kb)
 			rel := map[string][]byte{"key || 00": append(append([]byte{}, kb...), 0), "key || 00 x 8": append(append([]byte{}, kb...), make([]byte, 8)...),
 				"key without its last octet": kb[:len(kb)-1], "SHA-256 of the key": sum[:], "key || key": append(append([]byte{}, kb...), kb...)}
+			rel["the same key material without the alg member"] = kb
 			for name, kb2 := range rel {
 				k2 := cloneKey(k)
 				k2[iana.SymmetricKeyParameterK] = kb2
+				if strings.Contains(name, "without the alg") {
+					delete(k2, iana.KeyParameterAlg)
+				}
+				// the family's own constructor (not the registry): a MACer it hands out for another key must not verify
+				if kind == "KMac0" {
+					var m key.MACer
+					var merr error
+					if a.alg >= 4 && a.alg <= 7 {
+						m, merr = hmac.New(k2)
+					} else {
+						m, merr = aesmac.New(k2)
+					}
+					if merr == nil {
+						// (any tag, the genuine one and the empty one included)
+						for _, d2 := range [][]byte{data} {
+							if _, verr := cose.VerifyMac0Message[[]byte](m, d2, ext); verr == nil && !strings.Contains(name, "without the alg") {
+								line := short(fmt.Sprintf("realseq-related-key|%s|alg=%d|key=%x|other key (%s)=%x via the package constructor", kind, a.alg, kb, name, kb2))
+								c.fail(failure{Op: "real-related-key", What: "a message is accepted under another key (" + name + ") built with the package constructor", Input: line, Observed: "accepted", Expected: "an error", Case: line})
+							}
+						}
+						// and whatever key it is, a changed payload is refused
+						if out, perr2 := (&cose.Mac0Message[[]byte]{Payload: []byte("original")}).ComputeAndEncode(m, nil); perr2 == nil {
+							var mm cose.Mac0Message[[]byte]
+							if mm.UnmarshalCBOR(out) == nil {
+								forged := bytes.Replace(out, []byte("original"), []byte("forgery!"), 1)
+								if _, verr := cose.VerifyMac0Message[[]byte](m, forged, nil); verr == nil && !bytes.Equal(forged, out) {
+									line := short(fmt.Sprintf("realseq-related-key|%s|alg=%d|key (%s)=%x via the package constructor|message %x", kind, a.alg, name, kb2, forged))
+									c.fail(failure{Op: "real-related-key", What: "a MACer handed out by the package constructor accepts a message whose payload was replaced", Input: line, Observed: "accepted", Expected: "an error", Case: line})
+								}
+							}
+						}
+					}
+				}
 				var seen [][]byte
 				var got []byte
 				var cerr error
@@ -336,6 +373,25 @@ func realNonceMaterial(c *ctx) {
 					}
 					// the material removed from the received message (and, for a Partial IV, replaced by an empty one): no
 					// nonce can be derived, whatever the Base IV of the key is
+					// the material one octet longer (anything appended) or one octet shorter: another length, no nonce of the
+					// algorithm's size can come of it
+					for _, mod := range [][]byte{append(append([]byte{}, material...), byte(c.r.intn(256))), append(append([]byte{}, material...), 0), material[:len(material)-1]} {
+						if vr[0] == 0 && len(mod) < ns && len(mod) > 0 {
+							continue // (a Partial IV of another admissible length is another Partial IV: covered by the byte changes)
+						}
+						d, _ := rebuildUnprotected(data, func(un cose.Headers) { un[label] = mod })
+						var s2 [][]byte
+						var got2 []byte
+						var e2 error
+						pp, ppm := catch(func() { got2, _, e2 = consumeReal(kind, k, d, ext, &s2) })
+						c.eval()
+						c.nontriv(fmt.Sprintf("nonce-material-length|%d|%d|%d|%v", alg, vr[0], len(mod)-len(material), e2 == nil))
+						if pp || e2 == nil {
+							c.fail(failure{Op: "real-nonce-material", What: "a message whose IV / Partial IV was lengthened or shortened still decrypts", Input: line + fmt.Sprintf("|material %x -> %x", material, mod),
+								Observed: fmt.Sprintf("panic=%v %s accepted, payload=%x", pp, ppm, got2), Expected: "an error (no nonce of the algorithm's size)", Case: line, Theorem: "C03_nonce_material_binds"})
+							break
+						}
+					}
 					for _, strip := range []int{0, 1} {
 						d, _ := rebuildUnprotected(data, func(un cose.Headers) {
 							if strip == 0 {
